@@ -458,10 +458,15 @@ def rule_hidden_generic_table(run, F, cfg):
            f"the generic copy has not_hostnames / not_entities cleared ({clr})", config=cfg)
     # generichide flag polarity
     g = F.fn("blocker::Blocker::check_generic_hide")
-    e = g.expr_local(0)
-    run.ob("C16.5.generichide", "flag-is-some-of-probe",
-           bool(re.match(r"^std::option::Option::is_some\(network_filter_list::NetworkFilterList::check\(arg:self\.generic_hide, ", e)),
-           f"check_generic_hide is generic_hide.check(..).is_some() ({e[:100]})", site=g.loc(0), config=cfg)
+    from analysis.guards import conditional_defs as _cdefs
+    defs = [(val, conds) for kind, b, val, conds, _ in _cdefs(g, 0)]
+    probe = [(v, c) for v, c in defs if re.match(r"^std::option::Option::is_some\(network_filter_list::NetworkFilterList::check\(arg:self\.generic_hide, arg:hostname_request, ", v)]
+    other = [(v, c) for v, c in defs if (v, c) not in probe]
+    ok = len(probe) == 1 and all(v == "false" and c.get("arg:hostname_request.is_supported") == 0 for v, c in other) \
+        and all(k == "arg:hostname_request.is_supported" and x == 1 for k, x in probe[0][1].items())
+    run.ob("C16.5.generichide", "flag-is-some-of-probe", ok,
+           "check_generic_hide is generic_hide.check(request, ..).is_some() for every request with a supported scheme, and "
+           f"false otherwise ({[(v[:60], c) for v, c in defs]})", site=g.loc(0), config=cfg)
     # entity walk: hostname without its public suffix
     h = F.fn("filters::cosmetic::get_hostname_without_public_suffix")
     idx = sorted(h.vexpr_call(t) for b, t in h.calls(r"index$"))
